@@ -12,6 +12,8 @@ TRUSTED = [
     " and the add-only export files frac/export_verif_c17.go, fracmanager/export_verif_c17.go",
     "seal, reload of sealed fractions, replay of active fractions, the docs/meta block codecs and the query engine"
     " below the LID lists: NOT modelled; the observations after seal and restart are compared with the model (test)",
+    "harness/internal/storectl: every history runs on a real store inside a child process, so that a panic in an"
+    " index worker or a Fatal is reported with the history as replay (fingerprint history-crash)",
 ]
 ASSUME = [
     "each bulk carries pairwise distinct document IDs (nested metas directly follow their document, size 0)",
@@ -26,7 +28,8 @@ RULE = ("collector cases: random bulks (0/1/many tokens, nested metas, repeated 
         "first/last/middle/all/none/random positions on ONE reused real collector; history cases: 2-6 bulks with "
         "whole-bulk repeats, reordered repeats, partial overlaps with new documents, the same document several "
         "times, sequential / concurrent / landing in a later fraction, each followed by seal and restart. "
-        "non-trivial = filter with some but not all documents dropped / history with repeats and new documents; "
+        "plus one deliberate probe outside the quantifier (known ID re-delivered with a token new to the fraction, "
+        "class repeat-new-token-empty-posting). non-trivial = filter with some but not all documents dropped / history with repeats and new documents; "
         "distinct by input")
 
 
